@@ -87,6 +87,13 @@ def mixed_program(rng, u, depth=0, allow_pos=True, size=None, macros=None, comme
                     # a ONE-LINE comment inside an actual argument: the usage spans several lines (round-6 seeded change:
                     # a fast path for "plain" expansions skipped the rescan that strips the comment)
                     a.insert(rng.randint(0, len(a)), pp.bt("cmt", "// al%d" % rng.randint(0, 9)))
+                elif rng.random() < 0.2:
+                    # a usage of a macro without formals inside an actual argument / inside the group behind a macro without
+                    # formals: its expansion is as a rule not as long as its spelling (round-7 seeded change: origin entries
+                    # coalesced on the assumption that a segment's output is as long as its source range)
+                    zs = [m for m in sorted(macros) if macros[m] == 0 and m != name]
+                    if zs:
+                        a.insert(rng.randint(0, len(a)), pp.bt("use", rng.choice(zs)))
                 return a
             if nf == 0:
                 if name in macros and rng.random() < 0.2:
@@ -99,6 +106,9 @@ def mixed_program(rng, u, depth=0, allow_pos=True, size=None, macros=None, comme
                 items.append(pp.use(name, [actual() for _ in range(max(1, k))]))
             if items[-1]["k"] == "use" and items[-1]["a"] and rng.random() < 0.2:
                 items[-1]["sp"] = True          # white space between the macro name and its argument list
+            if items[-1]["k"] == "use" and items[-1]["a"] and rng.random() < 0.25:
+                items[-1]["g"] = True           # the closing parenthesis is directly followed by the next token
+                items.append(pp.tok(rng.choice(["+", ";", "-"])))
             if comments and rng.random() < 0.3:
                 items.append(pp.cmt(" after use "))
         elif r < 0.90 and depth < 2:
